@@ -4,7 +4,7 @@ printer shared with the C08 driver).  Every request carries the dictionary state
   lit <default|-> <list of [k,v]>      idx|sidx|in|rem|addk|delk <dict> <key>
   set <dict> <key> <value>             opa <dict> <key> <pair|left|right|fail> <value>
   union|inter|diff|uadd|eq|ne <a> <b>     insp <dict> <pair>
-  mkset|mkdict|uniq|freq|cdist|group|classify|memo <list>
+  mkset|mkdict|uniq|freq|cdist|group|classify|memo <list>    memoc <list of argument tuples>
   keys|values|items|len <dict>
 Response: `<impl>\t<spec>\t-`; results whose order comes out of a `HashMap` are sorted by text. -/
 import NoulithModel.Driver.C08
@@ -24,6 +24,11 @@ def both (f : (Val → Val → Bool) → Out Val) (post : Val → Val := id) : S
 
 def listOf : Val → Option (List Val)
   | .list xs => some xs
+  | _ => none
+
+def allLists : List Val → Option (List (List Val))
+  | [] => some []
+  | .list xs :: rest => (allLists rest).map (xs :: ·)
   | _ => none
 
 def entriesOf (v : Val) : Option Entries :=
@@ -76,6 +81,10 @@ def handle (args : List String) : String :=
       | "group", some xs => both (fun h => DictOps.groupAll h xs) sortList
       | "classify", some xs => both fun h => DictOps.classify h xs
       | "memo", some xs => both fun h => DictOps.memoize h xs
+      | "memoc", some xs =>
+        match allLists xs with
+        | some calls => both fun h => DictOps.memoizeCalls h calls
+        | none => "bad-op"
       | "keys", _ => both (fun _ => DictOps.keys x) sortList
       | "values", _ => both (fun _ => DictOps.values x) sortList
       | "items", _ => both (fun _ => DictOps.items x) sortList
